@@ -322,7 +322,7 @@ Definition c09_spec_ok (c obs : term) : bool :=
            (TList (map (fun n => match v_get (genv s) n with
                                  | Some v => TTag "scalar" [TStr v]
                                  | None => TTag "unset" []
-                                 end) [lit "x"; lit "y"; lit "z"; lit "w"; lit "l"; lit "m"; lit "a"; lit "b"]))
+                                 end) [lit "x"; lit "y"; lit "z"; lit "w"; lit "l"; lit "m"; lit "a"; lit "b"; lit "u"]))
       && match o, out with
          | ONorm v, TList [TStr t; TStr got] => str_eqb t (lit "Ok") && str_eqb got v
          | OError, TList (TStr t :: _) => str_eqb t (lit "Err")
